@@ -69,3 +69,14 @@ func (w *Watcher) VerifSnapshot() []VerifCh {
 	}
 	return out
 }
+
+// VerifPendingStates returns the number of published transactions that the
+// states handler of the channel has not yet taken from the pub-sub buffer.
+// It returns -1 if pub was not created by this package.
+func VerifPendingStates(pub interface{}) int {
+	s, ok := pub.(*statesPubSub)
+	if !ok {
+		return -1
+	}
+	return len(s.pipe)
+}
